@@ -65,6 +65,11 @@ fn snodes(item: &PItem, comb: u16, n: usize, depth: usize) -> Vec<SNode> {
                 SNode::Inner(NestStr { child, comb: k2, inner: Some(inner) })
             } else {
                 let id = with(|w| w.new_child(comb, slot as u16, true, false, if depth == 0 { spec_for(item, slot) } else { inner_spec(item, slot) }));
+                // `nam` = mask of inputs that stay Pending forever once they have produced `na` items
+                if depth == 0 && slot < 64 && (item.u("nam", 0) >> slot) & 1 == 1 {
+                    let k = item.u("na", 1) as u16;
+                    with(|w| w.children[id as usize].never_after = k);
+                }
                 SNode::Leaf(SLeaf { id })
             }
         })
